@@ -648,15 +648,17 @@ class Pass2(CompilePass):
                     d.bind(self.compilation)
             decl.bind(self.compilation)
 
+            # we need to manually set the parent_routine field for
+            # this node, because it does not have a parent and the
+            # usual parent_routine attribute does not work for it.
+            # (this must happen before its type is asked for:
+            # otherwise the name is looked up in the main routine)
+            decl._parent_routine = node.parent_routine
+
             if node.parent_routine.is_static:
                 node.parent_routine.static_vars[node.base_var] = decl.type
             else:
                 node.parent_routine.local_vars[node.base_var] = decl.type
-
-            # we need to manually set the parent_routine field for
-            # this node, because it does not have a parent and the
-            # usual parent_routine attribute does not work for it.
-            decl._parent_routine = node.parent_routine
 
             node.implicit_decl = decl
 
